@@ -106,3 +106,115 @@ def inputs_for(name, rnd):
     if name == "if":
         return [{"x": x, "cond": np.array(c)} for c in (True, False)]
     return [{"x": x}]
+
+
+# ------------------------------------------------------------------------------------------------------------------
+# Models aimed at the C05 quantifier (function attribute parameters with defaults, look-alike initializers and nodes,
+# Loop bodies with captures, constants of every attribute form, optional inputs/outputs)
+
+def m_func_defaults():
+    """A function whose attribute parameter has a default; called with the default, then twice with explicit values."""
+    body = helper.make_node("LeakyRelu", ["a"], ["b"], name="lr")
+    ref = helper.make_attribute("alpha", 0.0)
+    ref.ref_attr_name = "alpha"
+    ref.type = onnx.AttributeProto.FLOAT
+    ref.ClearField("f")
+    body.attribute.append(ref)
+    f = helper.make_function("local", "scale", ["a"], ["b"], [body], [helper.make_opsetid("", 18)],
+                             attribute_protos=[helper.make_attribute("alpha", 2.0)])
+    nodes = [
+        helper.make_node("scale", ["x"], ["t"], name="c_default", domain="local"),
+        helper.make_node("scale", ["t"], ["u"], name="c_quarter", domain="local", alpha=0.25),
+        helper.make_node("scale", ["x"], ["w"], name="c_three", domain="local", alpha=3.0),
+        helper.make_node("Add", ["u", "w"], ["y"], name="add"),
+    ]
+    g = helper.make_graph(nodes, "func_defaults", [vi("x")], [vi("y"), vi("u")])
+    return helper.make_model(g, functions=[f], opset_imports=[helper.make_opsetid("", 18), helper.make_opsetid("local", 1)], ir_version=10)
+
+
+def m_lookalike_initializers():
+    """Initializers with equal shape and equal bytes but different element types; equal values of different shape."""
+    zf = numpy_helper.from_array(np.zeros((2, 3), dtype=np.float32), "zero_f")
+    zi = numpy_helper.from_array(np.zeros((2, 3), dtype=np.int32), "zero_i")
+    pf = numpy_helper.from_array(np.array([1.0, 2.0], dtype=np.float32), "pat_f")
+    pi = numpy_helper.from_array(np.array([1065353216, 1073741824], dtype=np.int32), "pat_i")
+    row = numpy_helper.from_array(np.arange(6, dtype=np.float32).reshape(1, 6), "row")
+    col = numpy_helper.from_array(np.arange(6, dtype=np.float32).reshape(6, 1), "col")
+    nodes = [
+        helper.make_node("Add", ["x", "zero_f"], ["a"], name="add_f"),
+        helper.make_node("Cast", ["zero_i"], ["zc"], name="cast_i", to=F),
+        helper.make_node("Add", ["a", "zc"], ["y0"], name="add_i"),
+        helper.make_node("Cast", ["pat_i"], ["pc"], name="cast_p", to=F),
+        helper.make_node("Add", ["pc", "pat_f"], ["y1"], name="add_p"),
+        helper.make_node("MatMul", ["row", "col"], ["y2"], name="mm"),
+    ]
+    g = helper.make_graph(nodes, "lookalike", [vi("x")], [vi("y0"), vi("y1", (2,)), vi("y2", (1, 1))], initializer=[zf, zi, pf, pi, row, col])
+    return helper.make_model(g, opset_imports=[helper.make_opsetid("", 18)], ir_version=10)
+
+
+def m_lookalike_nodes():
+    """Nodes that differ only in an attribute value, in input order, in the number of outputs, or in an optional input."""
+    nodes = [
+        helper.make_node("LeakyRelu", ["x"], ["l1"], name="l1", alpha=0.1),
+        helper.make_node("LeakyRelu", ["x"], ["l2"], name="l2", alpha=0.2),
+        helper.make_node("Sub", ["l1", "l2"], ["s1"], name="s1"),
+        helper.make_node("Sub", ["l2", "l1"], ["s2"], name="s2"),
+        helper.make_node("Split", ["x"], ["p1", "p2", "p3"], name="split3", axis=1, num_outputs=3),
+        helper.make_node("Split", ["x"], ["q1"], name="split1", axis=1, num_outputs=1),
+        helper.make_node("Clip", ["x", "", "hi"], ["c1"], name="clip_hi"),
+        helper.make_node("Clip", ["x", "hi", ""], ["c2"], name="clip_lo"),
+        helper.make_node("Add", ["s1", "c1"], ["y0"], name="o0"),
+        helper.make_node("Add", ["s2", "c2"], ["y1"], name="o1"),
+        helper.make_node("Add", ["p1", "p3"], ["y2"], name="o2"),
+        helper.make_node("Identity", ["q1"], ["y3"], name="o3"),
+    ]
+    hi = numpy_helper.from_array(np.array(0.5, dtype=np.float32), "hi")
+    g = helper.make_graph(nodes, "lookalike_nodes", [vi("x")], [vi("y0"), vi("y1"), vi("y2", (2, 1)), vi("y3")], initializer=[hi])
+    return helper.make_model(g, opset_imports=[helper.make_opsetid("", 18)], ir_version=10)
+
+
+def m_loop():
+    """Loop whose body captures outer values (a node output and an initializer), forwards a body input through Identity and
+    produces a scan output; an Identity between a graph input and a graph output outside."""
+    body = helper.make_graph(
+        [helper.make_node("Identity", ["cond_in"], ["cond_out"], name="b_cond"),
+         helper.make_node("Add", ["acc", "outer"], ["acc1"], name="b_add"),
+         helper.make_node("Mul", ["acc1", "k"], ["acc_out"], name="b_mul"),
+         helper.make_node("Identity", ["acc_out"], ["scan"], name="b_scan")],
+        "body",
+        [helper.make_tensor_value_info("i", TensorProto.INT64, []), helper.make_tensor_value_info("cond_in", TensorProto.BOOL, []), vi("acc")],
+        [helper.make_tensor_value_info("cond_out", TensorProto.BOOL, []), vi("acc_out"), vi("scan")])
+    nodes = [
+        helper.make_node("Relu", ["x"], ["outer"], name="relu"),
+        helper.make_node("Loop", ["trip", "cond0", "x"], ["final", "scans"], name="loop", body=body),
+        helper.make_node("Identity", ["x"], ["x_out"], name="in_to_out"),
+        helper.make_node("ReduceSum", ["scans"], ["y"], name="rs", keepdims=0),
+    ]
+    inits = [numpy_helper.from_array(np.array(3, dtype=np.int64), "trip"), numpy_helper.from_array(np.array(True), "cond0"),
+             init("k", np.full((2, 3), 0.5))]
+    g = helper.make_graph(nodes, "with_loop", [vi("x")], [vi("final"), vi("y", ()), vi("x_out")], initializer=inits)
+    return helper.make_model(g, opset_imports=[helper.make_opsetid("", 18)], ir_version=10)
+
+
+def m_constants():
+    """Constant nodes of every attribute form."""
+    nodes = [
+        helper.make_node("Constant", [], ["cf"], name="cf", value_float=1.5),
+        helper.make_node("Constant", [], ["ci"], name="ci", value_int=2),
+        helper.make_node("Constant", [], ["cfs"], name="cfs", value_floats=[1.0, 2.0, 3.0]),
+        helper.make_node("Constant", [], ["cis"], name="cis", value_ints=[0, 1]),
+        helper.make_node("Constant", [], ["ct"], name="ct", value=numpy_helper.from_array(np.full((2, 3), 2.0, dtype=np.float32), "ctv")),
+        helper.make_node("Mul", ["x", "cf"], ["a"], name="m1"),
+        helper.make_node("Cast", ["ci"], ["cif"], name="c1", to=F),
+        helper.make_node("Add", ["a", "cif"], ["b"], name="a1"),
+        helper.make_node("Add", ["b", "cfs"], ["c"], name="a2"),
+        helper.make_node("ReduceSum", ["c", "cis"], ["d"], name="rs", keepdims=0),
+        helper.make_node("Mul", ["x", "ct"], ["e"], name="m2"),
+        helper.make_node("Add", ["e", "d"], ["y"], name="a3"),
+    ]
+    g = helper.make_graph(nodes, "constants", [vi("x")], [vi("y")])
+    return helper.make_model(g, opset_imports=[helper.make_opsetid("", 18)], ir_version=10)
+
+
+ALL.update({"func_defaults": m_func_defaults, "lookalike_inits": m_lookalike_initializers, "lookalike_nodes": m_lookalike_nodes,
+            "loop": m_loop, "constants": m_constants})
